@@ -45,8 +45,10 @@ def main():
         sh("git init -q . && git add -A >/dev/null 2>&1 && git -c user.email=a@b -c user.name=x commit -qm base", cwd=src)
         # without the patch
         ok0, t0 = build_and_test(src)
-        shutil.copytree(os.path.join(seed, "demo"), os.path.join(src, "seed_demo"))
-        rc_without, out_without = sh("bash seed_demo/run.sh", cwd=src, timeout=600)
+        shutil.copytree(os.path.join(seed, "demo"), os.path.join(src, "seed", "m", "demo"))
+        denv = dict(os.environ, NEVER=os.path.join(src, "_build", "never"), NEVER_BIN=os.path.join(src, "_build", "never"),
+                    NEVER_PATH="%s/sample/lib:%s/sample" % (src, src))
+        rc_without, out_without = sh("sh seed/m/demo/run.sh", cwd=src, env=denv, timeout=600)
         # with the patch
         rc, out = sh("git apply --whitespace=nowarn %s" % os.path.join(seed, "patch.diff"), cwd=src)
         if rc != 0:
@@ -54,7 +56,7 @@ def main():
             meta["applies"] = False
             return 2
         ok1, t1 = build_and_test(src)
-        rc_with, out_with = sh("bash seed_demo/run.sh", cwd=src, timeout=600)
+        rc_with, out_with = sh("sh seed/m/demo/run.sh", cwd=src, env=denv, timeout=600)
         meta.update({"applies": True, "tests_pass_without": ok0, "tests_pass_with": ok1,
                      "demo_without": {"rc": rc_without, "tail": out_without[-300:]},
                      "demo_with": {"rc": rc_with, "tail": out_with[-300:]}})
@@ -62,7 +64,7 @@ def main():
         meta["confirmed"] = confirmed
         print("tests without/with:", ok0, ok1, "demo without rc=%d with rc=%d" % (rc_without, rc_with), "CONFIRMED" if confirmed else "NOT CONFIRMED")
         # our checks against the changed tree
-        sh("rm -rf _build seed_demo .git", cwd=src)
+        sh("rm -rf _build seed .git", cwd=src)
         env = dict(os.environ, NEVER_REPO=src)
         for cid in checks:
             t = time.time()
@@ -76,6 +78,7 @@ def main():
             print("check", cid, "exit", rc, "caught" if caught else "MISSED", "(concrete input)" if concrete else "")
         readme = open(os.path.join(seed, "README.md"), errors="replace").read() if os.path.exists(os.path.join(seed, "README.md")) else ""
         m = re.search(r"(?is)(needs?[^\n]*manifest[^\n]*\n(?:.*\n){0,6})", readme)
+        meta["demo_how"] = "from a checkout of never-lang/never with the patch applied and built into _build: place demo/ at seed/m/demo and run `sh seed/m/demo/run.sh` (or set NEVER / NEVER_BIN to the built binary)"
         meta["needs_to_manifest"] = (m.group(1).strip()[:800] if m else readme[:800])
         if confirmed:
             dst = os.path.join(VERIF, "seeded", name)
